@@ -6,7 +6,8 @@ CONSTANTS MaxOps, MaxFaults
 VARIABLES h, g, n, faults, last, hist
 vars == <<h, g, n, faults, last, hist>>
 
-FaultLists == {<<>>, <<TRUE>>, <<FALSE, TRUE>>, <<FALSE, FALSE, TRUE>>}
+\* (the last two: a statement fails AND the rollback that cleans up after it fails - the error path of an error path)
+FaultLists == {<<>>, <<TRUE>>, <<FALSE, TRUE>>, <<FALSE, FALSE, TRUE>>, <<TRUE, TRUE>>, <<FALSE, TRUE, TRUE>>}
 Ops == [op : {"start", "stop", "close", "abort"}, k : {"-"}, v : {0}, fl : FaultLists]
        \cup [op : {"put"}, k : Keys, v : Vals, fl : FaultLists] \cup [op : {"get"}, k : Keys, v : {0}, fl : FaultLists]
 NF(fl) == Cardinality({i \in DOMAIN fl : fl[i]})
